@@ -15,7 +15,7 @@ def validate(ctx, module, traces, tag, timeout_s=900):
     with open(path, "w") as f:
         json.dump({"traces": traces}, f)
     res = tlc.run(module, module + "_strict", tag="%s_%s_strict" % (ctx.pid, tag), workers=8, timeout_s=timeout_s,
-                  env={"TRACE_FILE": path})
+                  env={"TRACE_FILE": path}, require_emit=False)
     ctx.add_tlc("%s strict (%d recorded traces)" % (module, len(traces)), res)
     ok = set(o["accept"] for o in res.emitted if "accept" in o)
     rest = [t for t in traces if t["id"] not in ok]
@@ -25,7 +25,7 @@ def validate(ctx, module, traces, tag, timeout_s=900):
         with open(path2, "w") as f:
             json.dump({"traces": rest}, f)
         res2 = tlc.run(module, module + "_lax", tag="%s_%s_lax" % (ctx.pid, tag), workers=8, timeout_s=timeout_s,
-                       env={"TRACE_FILE": path2})
+                       env={"TRACE_FILE": path2}, require_emit=False)
         ctx.add_tlc("%s observables only (%d traces)" % (module, len(rest)), res2)
         ok2 = set(o["accept"] for o in res2.emitted if "accept" in o)
         drift = [t for t in rest if t["id"] in ok2]
